@@ -220,6 +220,66 @@ def api_deps(ctx, rep, cfgs=None):
         rep.instances(n, 10, 'public operations')
 
 
+def api_abi(ctx, rep):
+    """ABI-1: the library as built agrees with what a client of the public header sees"""
+    import subprocess, tempfile, os, re
+    from . import frontend
+    cfg = 'NsS'
+    P = ctx.prog(cfg)
+    if cfg not in rep.configs: rep.configs.append(cfg)
+    rep.rule('ABI-1', 'calling convention of the public API: a translation unit that only includes include/polyseed.h and is compiled with the compiler\'s default options (what an '
+             'application does) declares every public function with the same return and parameter types, and lays out polyseed_str / polyseed_storage / polyseed_dependency with '
+             'the same sizes, as the library defines them under ITS build flags (compile database of the project). A private compile option that changes the representation of a '
+             'public type - enum size, struct packing, char signedness of a public field - makes the library read arguments differently from how callers pass them')
+    root = frontend.repo_root()
+    names = sorted(n for n, f in P.defined.items() if not f.local and n in API_DEPS or n in ('polyseed_inject',))
+    src = '#include "polyseed.h"\nvoid* polyseed_abi_probe[] = { %s };\n' % ', '.join('(void*)%s' % n for n in names)
+    src += 'unsigned long polyseed_abi_sizes[] = { sizeof(polyseed_str), sizeof(polyseed_storage), sizeof(polyseed_dependency), sizeof(polyseed_coin), sizeof(polyseed_status) };\n'
+    d = tempfile.mkdtemp(prefix='psa-abi-')
+    try:
+        open(os.path.join(d, 'probe.c'), 'w').write(src)
+        p = subprocess.run(['clang-14', '-I', os.path.join(root, 'include'), '-S', '-emit-llvm', '-O0', '-w', '-o', '-', os.path.join(d, 'probe.c')], stdout=subprocess.PIPE, stderr=subprocess.PIPE, text=True)
+        if p.returncode != 0: raise AnalysisBroken('the public header does not compile on its own: %s' % p.stderr[-300:])
+        ir = p.stdout
+    finally:
+        import shutil; shutil.rmtree(d, ignore_errors=True)
+    def norm(t):
+        t = re.sub(r'\b(noundef|zeroext|signext|nonnull|readonly|nocapture|align \d+|dereferenceable\(\d+\)|noalias)\b', '', t)
+        return re.sub(r'\s+', ' ', t).strip()
+    decl = {}
+    for m in re.finditer(r'^declare (?:[a-z_]+ )*?(\S+(?: \([^)]*\)\*)?) @(\w+)\((.*)\)', ir, re.M):
+        ret, nm, params = m.group(1), m.group(2), m.group(3)
+        depth = 0; cur = ''; ps = []
+        for ch in params:
+            if ch in '([': depth += 1
+            if ch in ')]': depth -= 1
+            if ch == ',' and depth == 0: ps.append(norm(cur)); cur = ''
+            else: cur += ch
+        if cur.strip(): ps.append(norm(cur))
+        decl[nm] = (norm(ret), ps)
+    n = 0
+    for nm in names:
+        f = P.defined[nm]
+        if nm not in decl: raise AnalysisBroken('public function %s is not declared in include/polyseed.h' % nm)
+        n += 1
+        lib = (f.d.get('ret_ty'), [p_['ty'] for p_ in f.params])
+        cli = decl[nm]
+        rep.check(lib[0] == cli[0] and lib[1] == cli[1], '%s: library definition %s(%s) = client declaration' % (nm, lib[0], ', '.join(lib[1])), '%s:%s' % ((f.file or '').replace('/repo/', ''), f.line),
+                  '%s is compiled with a different signature than callers use' % nm, detail={'library': {'ret': lib[0], 'params': lib[1]}, 'client': {'ret': cli[0], 'params': cli[1]}},
+                  sample={'function': nm, 'params': lib[1]} if n <= 2 else None, key='ABI-1|%s' % nm)
+    rep.instances(n, 10, 'public functions')
+    m = re.search(r'@polyseed_abi_sizes = .*\[(.*?)\]', ir)
+    cs = [int(x) for x in re.findall(r'i64 (\d+)', m.group(1))] if m else []
+    T = ctx.tables()
+    lib_sizes = {'polyseed_str': T.str_size(), 'polyseed_dependency': (P.structs.get('struct.polyseed_dependency') or {}).get('size')}
+    if len(cs) == 5:
+        rep.check(cs[0] == lib_sizes['polyseed_str'], 'sizeof(polyseed_str): client %d = library %s' % (cs[0], lib_sizes['polyseed_str']), 'include/polyseed.h', 'polyseed_str differs between client and library', key='ABI-1|str')
+        rep.check(cs[2] == lib_sizes['polyseed_dependency'], 'sizeof(polyseed_dependency): client %d = library %s' % (cs[2], lib_sizes['polyseed_dependency']), 'include/polyseed.h', 'polyseed_dependency differs between client and library', key='ABI-1|deps')
+        en = P.ditypes.get('enum:polyseed_coin') or P.ditypes.get('polyseed_coin') or {}
+        if en.get('size_bits'):
+            rep.check(cs[3] * 8 == en['size_bits'], 'sizeof(polyseed_coin): client %d bytes = library %d bits' % (cs[3], en['size_bits']), 'include/polyseed.h', 'polyseed_coin differs between client and library', key='ABI-1|coin')
+
+
 def visibility(ctx, rep):
     """FRAME-6: the library's mutable state is its own also in the shared-library build"""
     cfg = 'NsH'
